@@ -138,13 +138,29 @@ func GenNested(t *rapid.T, opt NestedOptions) *Nested {
 		}
 		var st gtab.Subtable
 		tp := uint16(5)
-		switch rapid.IntRange(0, 3).Draw(t, "ctxFormat") {
+		switch rapid.IntRange(0, 4).Draw(t, "ctxFormat") {
 		case 0:
 			st = &gtab.SeqContext1{Cov: CovTable([]glyph.ID{first}), Rules: [][]*gtab.SeqRule{{{Input: input, Actions: actions}}}}
 		case 1, 2:
 			st = &gtab.SeqContext3{Input: sets, Actions: actions}
 		default:
-			st = &gtab.ChainedSeqContext3{Input: sets, Actions: actions}
+			// backtrack and lookahead reach beyond the glyphs of the rule's own
+			// input - when the rule runs as a nested lookup, beyond the match
+			// window of the rule that called it
+			ch := &gtab.ChainedSeqContext3{Input: sets, Actions: actions}
+			for k := rapid.IntRange(0, 1).Draw(t, "nBacktrack"); k > 0; k-- {
+				ch.Backtrack = append(ch.Backtrack, coverage.Set{g("backtrack"): true})
+			}
+			for k := rapid.IntRange(0, 2).Draw(t, "nLookahead"); k > 0; k-- {
+				set := coverage.Set{g("lookahead"): true}
+				if rapid.IntRange(0, 2).Draw(t, "lookaheadWide") == 0 {
+					for _, x := range bases {
+						set[x] = true
+					}
+				}
+				ch.Lookahead = append(ch.Lookahead, set)
+			}
+			st = ch
 			tp = 6
 		}
 		ll[i] = &gtab.LookupTable{Meta: meta(tp, "ctxFlags"), Subtables: []gtab.Subtable{st}}
